@@ -17,7 +17,7 @@ RULE = ('Lane supported: per monitor kind (dt_off, dt_on, dt_on after pastify, c
         'declared-but-unused variable, inputs in permuted order; every call must return normally. Lane unsupported: a supported formula '
         'with one unsupported construct inserted at a random position (unbounded and un-pastified bounded future online, with and without '
         'pastify; prev/next/s_prev/s_next/rise/fall in dense time; bounded until in dense-time online, with and without pastify): '
-        'parse/pastify/first evaluate/first update must raise RTAMTException; another exception type or a returned value fails. '
+        'parse/pastify/first evaluate/first update must raise RTAMTException; another exception type or a returned value fails, also when the rejected call is repeated on the same object. Lane recover: a bounded-future specification is used without pastify() (rejected), then pastified and used again on the same object: update() must return normally with the values of an object pastified up front. '
         'Non-trivial = supported: a degenerate shape is present; unsupported: the offending operator is nested below >=1 other operator; '
         'distinct = distinct (formula, data shape, kind) digests.')
 
